@@ -1,6 +1,7 @@
 import QclibModel.Proofs.SchmidtIndex
 import QclibModel.Proofs.SchmidtRank
 import QclibModel.Proofs.SchmidtAlg
+import QclibModel.Proofs.SchmidtOptimalState
 /-
   C07 — low-rank preparation yields the normalised truncation of the Schmidt decomposition to
   `r'` terms, `r'` the least power of two `≥ min(r, Schmidt rank)`.   (PARTIAL)
@@ -20,9 +21,12 @@ import QclibModel.Proofs.SchmidtAlg
   carry exactly the row / column bits of the reshape (`C07_placement`; the code sorts the list
   before forming the registers).
 
+  Added later (end of file): Eckart–Young–Mirsky for overlaps IS proved over `ℝ`/`ℂ`
+  (`C07_optimal_rank1`, `C07_optimal`): under the SVD specification no matrix of rank `≤ r'` and
+  Frobenius norm 1 has a larger squared overlap with the target than `Σ_{i<r'} s_i²`, the value
+  the prepared truncation attains (`C07_fidelity`).
+
   NOT proved (hypotheses / cited):
-  * Eckart–Young–Mirsky ("no state of that Schmidt rank can exceed it") is a theorem of
-    mathematics independent of the code; it is cited, not proved.
   * `np.linalg.svd` (`hsvd`, `hU`, `hV`, `hs`) and the gate-level encoders (`decompose_isometry`,
     `decompose_unitary`, nested state preparation: properties C01–C03) are K4 hypotheses; the
     step "the circuit's matrix on (reg_b, reg_a) is `Σ_j U[:,j] t_j V[j,:]`" is `C07_assembly` given
@@ -181,5 +185,154 @@ example : ∃ plan, lowRankPlan 3 [2, 0] 0 2 "ccd" "qsd" = some plan ∧ plan.re
 `[0, 1]` the decomposition is taken across. -/
 example : ∃ plan, lowRankPlan 2 [1, 0] 0 2 "ccd" "qsd" = some plan ∧ plan.regA = [1, 0] ∧
     sepAxes 2 [1, 0] = some [0, 1] := ⟨_, rfl, by decide⟩
+
+/-! ## Added later: optimality of the truncation (Eckart–Young–Mirsky for overlaps) -/
+
+section Optimal
+variable {𝕜 : Type} [RCLike 𝕜]
+
+/-- **C07 (no product state beats the rank-1 truncation).**  Scalars `ℝ` or `ℂ`.  Let the
+bipartition matrix of the target be `M = Σ_{i<k} u_i s_i v_i` with orthonormal `u_i` (columns of
+`U`), orthonormal `v_i` (rows of `V`) and real `s_0 ≥ s_1 ≥ … ≥ 0` (the SVD specification).  Then
+for ALL vectors `a` (`rows` entries) and `b` (`cols` entries)
+`|⟨M, a ⊗ b⟩|² ≤ s_0² ‖a‖² ‖b‖²`; in particular `≤ s_0²` for unit vectors — the value attained by
+the prepared rank-1 truncation `u_0 ⊗ v_0` (`C07_fidelity` with `r = 1`).  Proof: Cauchy–Schwarz and
+Bessel's inequality for the two orthonormal families. -/
+theorem C07_optimal_rank1 (rows cols k : Nat) (U : Nat → Nat → 𝕜) (s : Nat → ℝ)
+    (V : Nat → Nat → 𝕜)
+    (hU : ∀ i j, i < k → j < k → gramCols rows U i j = if i = j then 1 else 0)
+    (hV : ∀ i j, i < k → j < k → gramRows cols V i j = if i = j then 1 else 0)
+    (hs : ∀ i j, i ≤ j → j < k → s j ≤ s i) (hs0 : ∀ i, i < k → 0 ≤ s i)
+    (a b : Nat → 𝕜) :
+    let M := composeMat k U (fun i => (s i : 𝕜)) V
+    ‖inner2 star rows cols M (fun x y => a x * b y)‖ ^ 2
+        ≤ s 0 ^ 2 * sumTo rows (fun x => ‖a x‖ ^ 2) * sumTo cols (fun y => ‖b y‖ ^ 2) ∧
+    (sumTo rows (fun x => ‖a x‖ ^ 2) = 1 → sumTo cols (fun y => ‖b y‖ ^ 2) = 1 →
+      ‖inner2 star rows cols M (fun x y => a x * b y)‖ ^ 2 ≤ s 0 ^ 2) := by
+  intro M
+  have h := optimal_rank1 rows cols k U V s hU hV hs hs0 a b
+  rw [norm_inner2_symm] at h
+  refine ⟨h, fun ha hb => ?_⟩
+  rw [ha, hb, mul_one, mul_one] at h
+  exact h
+
+/-- **C07 (optimality: no state of Schmidt rank `≤ r` exceeds the truncation).**  Scalars `ℝ` or
+`ℂ`, SVD specification as in `C07_optimal_rank1`, `r ≤ k`.  Let `T = Σ_{j<r} a_j ⊗ b_j` for
+ARBITRARY vectors `a_j`, `b_j` (every `rows × cols` matrix of rank `≤ r`, i.e. every vector of
+Schmidt rank `≤ r` across the bipartition, has this form).  Then
+* `|⟨M, T⟩|² ≤ (Σ_{i<r} s_i²) · ‖T‖_F²`;
+* hence `|⟨M, T⟩|² ≤ Σ_{i<r} s_i²` when `‖T‖_F = 1`;
+* hence, with `N² = Σ_{i<r} s_i²`, `N ≠ 0`: `|⟨M, T⟩|² ≤ |⟨M, T*⟩|²` for the renormalised
+  truncation `T* = Σ_{i<r} u_i (s_i/N) v_i` the library prepares (whose overlap is `N` by
+  `C07_fidelity`).
+Proof (`Proofs/SchmidtOptimal.lean`): orthonormalise the `a_j` (an orthonormal basis `ε_l`, `l < d ≤
+r`, of their span), so `T = Σ_l ε_l ⊗ β_l` with `‖T‖_F² = Σ_l ‖β_l‖²`; Cauchy–Schwarz gives
+`|⟨M,T⟩|² ≤ ‖T‖_F² · Σ_i s_i² w_i` with `w_i = Σ_l |⟨ε_l,u_i⟩|²`; Bessel twice gives `w_i ≤ 1`,
+`Σ_i w_i ≤ d`; the water-filling inequality gives `Σ_i s_i² w_i ≤ Σ_{i<r} s_i²`. -/
+theorem C07_optimal (rows cols k r : Nat) (hle : r ≤ k) (U : Nat → Nat → 𝕜) (s : Nat → ℝ)
+    (V : Nat → Nat → 𝕜)
+    (hU : ∀ i j, i < k → j < k → gramCols rows U i j = if i = j then 1 else 0)
+    (hV : ∀ i j, i < k → j < k → gramRows cols V i j = if i = j then 1 else 0)
+    (hs : ∀ i j, i ≤ j → j < k → s j ≤ s i) (hs0 : ∀ i, i < k → 0 ≤ s i)
+    (a b : Nat → Nat → 𝕜) :
+    let M := composeMat k U (fun i => (s i : 𝕜)) V
+    let T := sumOuter r a b
+    let frob := sumTo rows (fun x => sumTo cols (fun y => ‖T x y‖ ^ 2))
+    ‖inner2 star rows cols M T‖ ^ 2 ≤ sumTo r (fun i => s i ^ 2) * frob ∧
+    (frob = 1 → ‖inner2 star rows cols M T‖ ^ 2 ≤ sumTo r (fun i => s i ^ 2)) ∧
+    (frob = 1 → ∀ N : ℝ, N ≠ 0 → N * N = sumTo r (fun i => s i * s i) →
+      ‖inner2 star rows cols M T‖ ^ 2
+        ≤ ‖inner2 star rows cols M
+            (composeMat r U (renorm (N : 𝕜) (fun i => (s i : 𝕜))) V)‖ ^ 2) := by
+  intro M T frob
+  have h := optimal_rank rows cols k r hle U V s hU hV hs hs0 a b
+  rw [norm_inner2_symm] at h
+  have h1 : frob = 1 → ‖inner2 star rows cols M T‖ ^ 2 ≤ sumTo r (fun i => s i ^ 2) := by
+    intro hf
+    have h' := h
+    rw [show sumTo rows (fun x => sumTo cols (fun y => ‖sumOuter r a b x y‖ ^ 2)) = frob from rfl,
+      hf, mul_one] at h'
+    exact h'
+  refine ⟨h, h1, fun hf N hN hNN => ?_⟩
+  have hfid := (C07_fidelity (K := 𝕜) rows cols k r hle U (fun i => (s i : 𝕜)) V (N : 𝕜) hU hV
+    (fun i => by simp) (by simp) (by exact_mod_cast hN)
+    (by
+      have : (fun i => ((s i : ℝ) : 𝕜) * ((s i : ℝ) : 𝕜)) = fun i => (((s i * s i : ℝ)) : 𝕜) := by
+        funext i; push_cast; rfl
+      rw [this, sumTo_ofReal, ← hNN]; push_cast; rfl)).1
+  rw [hfid, RCLike.norm_ofReal, sq_abs]
+  have : (fun i => s i * s i) = fun i => s i ^ 2 := by funext i; ring
+  rw [pow_two N, hNN, this]
+  exact h1 hf
+
+/-- Non-vacuity of `C07_optimal` / `C07_optimal_rank1` over `ℂ`: `U = V = I₂`, `s = (1, 0)`
+(orthonormal, non-increasing, non-negative), and the bound `s_0² = 1` is attained by the product
+state `e_0 ⊗ e_0` (so the inequality is sharp). -/
+example :
+    (∀ i j, i < 2 → j < 2 →
+      gramCols (K := ℂ) 2 (fun r i => if r = i then 1 else 0) i j = if i = j then 1 else 0) ∧
+    (∀ i j, i < 2 → j < 2 →
+      gramRows (K := ℂ) 2 (fun i c => if i = c then 1 else 0) i j = if i = j then 1 else 0) ∧
+    (∀ i j, i ≤ j → j < 2 → (fun i => if i = 0 then (1 : ℝ) else 0) j
+      ≤ (fun i => if i = 0 then (1 : ℝ) else 0) i) ∧
+    ‖inner2 star 2 2
+        (composeMat 2 (fun r i => if r = i then (1 : ℂ) else 0)
+          (fun i => (((if i = 0 then (1 : ℝ) else 0) : ℝ) : ℂ)) (fun i c => if i = c then 1 else 0))
+        (fun x y => (if x = 0 then (1 : ℂ) else 0) * (if y = 0 then 1 else 0))‖ ^ 2
+      = (fun i => if i = 0 then (1 : ℝ) else 0) 0 ^ 2 := by
+  refine ⟨?_, ?_, ?_, ?_⟩
+  · intro i j hi hj
+    rcases (by omega : i = 0 ∨ i = 1) with rfl | rfl <;>
+      rcases (by omega : j = 0 ∨ j = 1) with rfl | rfl <;> simp [gramCols, sumTo]
+  · intro i j hi hj
+    rcases (by omega : i = 0 ∨ i = 1) with rfl | rfl <;>
+      rcases (by omega : j = 0 ∨ j = 1) with rfl | rfl <;> simp [gramRows, sumTo]
+  · intro i j hij hj
+    rcases (by omega : j = 0 ∨ j = 1) with rfl | rfl
+    · have : i = 0 := by omega
+      subst this; simp
+    · simp only [one_ne_zero, if_false]; split <;> norm_num
+  · simp [inner2, composeMat, sumTo]
+
+/-- **C07 (optimality, for state vectors).**  Scalars `ℝ` or `ℂ`; `partition` any list numpy
+accepts (`sepAxes n partition = some src`).  Let `v` be the target, its bipartition matrix
+`_separation_matrix(n, v, partition)` meeting the SVD specification with coefficients
+`s_0 ≥ s_1 ≥ … ≥ 0`, and let `t` be ANY vector of `2^n` entries whose bipartition matrix across the
+same partition is `Σ_{j<r} a_j ⊗ b_j` (Schmidt rank `≤ r`), `r ≤ k`.  Then
+`|⟨v|t⟩|² ≤ (Σ_{i<r} s_i²)·‖t‖²`, so `≤ Σ_{i<r} s_i²` for a unit vector `t` — the fidelity the
+prepared state attains (`C07_fidelity`).  (`⟨v|t⟩` is the entry-wise inner product of the two
+bipartition matrices because `sepIndexAx`/`undoIndexAx` are mutually inverse.) -/
+theorem C07_optimal_state (n : Nat) (P : List Int) (src : List Nat) (h : sepAxes n P = some src)
+    (v t : Nat → 𝕜) (k r : Nat) (hle : r ≤ k) (U : Nat → Nat → 𝕜) (s : Nat → ℝ)
+    (V : Nat → Nat → 𝕜)
+    (hU : ∀ i j, i < k → j < k →
+      gramCols (2 ^ (n - src.length)) U i j = if i = j then 1 else 0)
+    (hV : ∀ i j, i < k → j < k → gramRows (2 ^ src.length) V i j = if i = j then 1 else 0)
+    (hs : ∀ i j, i ≤ j → j < k → s j ≤ s i) (hs0 : ∀ i, i < k → 0 ≤ s i)
+    (hsvd : ∀ x y, x < 2 ^ (n - src.length) → y < 2 ^ src.length →
+      sepMat n src v x y = composeMat k U (fun i => (s i : 𝕜)) V x y)
+    (a b : Nat → Nat → 𝕜)
+    (ht : ∀ x y, x < 2 ^ (n - src.length) → y < 2 ^ src.length →
+      sepMat n src t x y = sumOuter r a b x y) :
+    ‖sumTo (2 ^ n) (fun i => star (v i) * t i)‖ ^ 2
+        ≤ sumTo r (fun i => s i ^ 2) * sumTo (2 ^ n) (fun i => ‖t i‖ ^ 2) ∧
+    (sumTo (2 ^ n) (fun i => ‖t i‖ ^ 2) = 1 →
+      ‖sumTo (2 ^ n) (fun i => star (v i) * t i)‖ ^ 2 ≤ sumTo r (fun i => s i ^ 2)) := by
+  have h1 := optimal_state (sepAxes_valid h) v t k r hle U V s hU hV hs hs0 hsvd a b ht
+  refine ⟨h1, fun hn => ?_⟩
+  rw [hn, mul_one] at h1
+  exact h1
+
+/-- Non-vacuity of `C07_optimal_state`: two qubits, partition `[0]`; every vector `t` has a
+bipartition matrix of the form `Σ_{j<2} a_j ⊗ b_j` (take `a_j = e_j`, `b_j` = row `j`). -/
+example (t : Nat → ℂ) : ∃ src, sepAxes 2 [0] = some src ∧ ∀ x y, x < 2 ^ (2 - src.length) →
+    y < 2 ^ src.length →
+    sepMat 2 src t x y
+      = sumOuter 2 (fun j x => if x = j then 1 else 0) (fun j y => sepMat 2 src t j y) x y := by
+  refine ⟨[0], by decide, fun x y hx hy => ?_⟩
+  have hx' : x < 2 := hx
+  rcases (by omega : x = 0 ∨ x = 1) with rfl | rfl <;> simp [sumOuter, sumTo]
+
+end Optimal
 
 end Qclib
